@@ -96,12 +96,14 @@ def run_launch(params, order):
         tempfile.tempdir = workdir()
         try:
             user_dir = None
-            if params['datadir'] == 'user':
+            if params['datadir'] in ('user', 'user-new'):
                 user_dir = os.path.join(workdir(), 'userdata')
                 shutil.rmtree(user_dir, ignore_errors=True)
-                os.makedirs(user_dir)
-                with open(os.path.join(user_dir, 'keepme'), 'w') as f:
-                    f.write('x')
+                if params['datadir'] == 'user':
+                    os.makedirs(user_dir)
+                    with open(os.path.join(user_dir, 'keepme'), 'w') as f:
+                        f.write('x')
+                # 'user-new': the caller names a directory that does not exist yet; launch() creates it - it is still the caller's
             conn = {}
 
             def creator():
@@ -243,7 +245,10 @@ def run_launch(params, order):
                     viol.append(('tempdir-not-removed', params['exit'], 'the temporary data directory %s still exists after processEnded' % datadir))
             if params['datadir'] == 'user':
                 if not os.path.exists(os.path.join(user_dir, 'keepme')):
-                    viol.append(('user-directory-removed', 'x', 'the caller-supplied data directory was removed (%r)' % (log,)))
+                    viol.append(('user-directory-removed', 'pre-existing', 'the caller-supplied data directory was removed (%r)' % (log,)))
+            if params['datadir'] == 'user-new':
+                if not os.path.isdir(user_dir):
+                    viol.append(('user-directory-removed', 'created-by-launch', 'the caller-supplied data directory was removed (%r)' % (log,)))
             errs = [e for e in w.errors() if 'dataReceived raised' not in e[0]
                     and e[1] not in ('RuntimeError', 'ConnectionRefusedError', 'TorProtocolError', 'TorDisconnectError', 'ConnectionLost')]
             if errs:
@@ -268,6 +273,8 @@ def param_sets(tier):
     out.append(dict(base, exit='code0', kill_on_stderr=True))
     out.append(dict(base, connect='refused'))
     out.append(dict(base, connect='refused', datadir='user', exit='signal'))
+    out.append(dict(base, connect='refused', datadir='user-new', exit='code1'))
+    out.append(dict(base, datadir='user-new', exit='code0'))
     out.append(dict(base, ostyle='absent'))
     marker_len = len(b'Opening Control listener')
     ks = range(1, marker_len) if tier == 'thorough' else (1, 8, 16, marker_len - 1)
